@@ -194,8 +194,34 @@ def canon_tree(t):
     }
 
 
-def canon_params(df):
+_APPL = {
+    "SOURCE": ["io", "po", "pl"],
+    "PLOAD": ["vi", "ii", "tr", "tp"],
+    "ILOAD": ["vi", "pi", "tr", "tp"],
+    "RLOAD": ["vi", "ii", "pi", "tr", "tp"],
+    "CONVERTER": ["vi", "vo", "ii", "io", "pi", "po", "pl", "tr", "tp"],
+}
+
+
+def canon_params(df, mask=True):
+    """params()/limits() rows by component.  Limit cells that are not
+    applicable to the component's kind are blanked (save() does not store
+    them, and no property speaks about them)."""
     cols, rows = frame_rows(df)
+    if mask:
+        for r in rows:
+            t = r.get("Type")
+            if t == "LOAD":
+                t = "PLOAD" if r.get("pwr (W)", "") != "" else ("ILOAD" if r.get("ii (A)", "") != "" else "RLOAD")
+                if "pwr (W)" not in r:
+                    t = None
+            appl = _APPL.get(t)
+            if appl is None:
+                continue
+            for c in cols:
+                m = re.match(r"^(vi|vo|vd|ii|io|pi|po|pl|tr|tp) (limit )?\(", c)
+                if m and m.group(1) not in appl:
+                    r[c] = ""
     return {"cols": cols, "rows": {r["Component"]: r for r in rows}, "n": len(rows)}
 
 
@@ -223,6 +249,11 @@ def canon_savedoc(text):
     for k, v in doc.items():
         if k != "system" and isinstance(v, dict) and "childs" in v:
             v["childs"] = norm_childs(v["childs"])
+    pc = doc.get("system", {}).get("phase_conf")
+    if isinstance(pc, dict):
+        for k in pc:
+            if pc[k] == [] or pc[k] == {}:
+                pc[k] = {}  # an empty list and an empty dict both mean 'no configuration'
     return doc
 
 
